@@ -19,24 +19,22 @@ import (
 	"net/http"
 	"regexp"
 
-	"github.com/google/martian/v3"
+	"github.com/google/martian/v3/filter"
 	"github.com/google/martian/v3/parse"
 )
 
 // ValueRegexFilter executes resmod and reqmod when the header
 // value matches regex.
 type ValueRegexFilter struct {
-	regex  *regexp.Regexp
-	header string
-	reqmod martian.RequestModifier
-	resmod martian.ResponseModifier
+	*filter.Filter
 }
 
 type headerValueRegexFilterJSON struct {
-	Regex      string               `json:"regex"`
-	HeaderName string               `json:"header"`
-	Modifier   json.RawMessage      `json:"modifier"`
-	Scope      []parse.ModifierType `json:"scope"`
+	Regex        string               `json:"regex"`
+	HeaderName   string               `json:"header"`
+	Modifier     json.RawMessage      `json:"modifier"`
+	ElseModifier json.RawMessage      `json:"else"`
+	Scope        []parse.ModifierType `json:"scope"`
 }
 
 func init() {
@@ -45,12 +43,27 @@ func init() {
 
 // NewValueRegexFilter builds a new header value regex filter.
 func NewValueRegexFilter(regex *regexp.Regexp, header string) *ValueRegexFilter {
-	return &ValueRegexFilter{
-		regex:  regex,
-		header: header,
-		reqmod: noop,
-		resmod: noop,
-	}
+	m := &valueRegexMatcher{regex: regex, header: header}
+	f := filter.New()
+	f.SetRequestCondition(m)
+	f.SetResponseCondition(m)
+	return &ValueRegexFilter{f}
+}
+
+// valueRegexMatcher matches when the request carries header with a non-empty
+// value that matches regex, for requests and for the responses to them.
+type valueRegexMatcher struct {
+	regex  *regexp.Regexp
+	header string
+}
+
+func (m *valueRegexMatcher) MatchRequest(req *http.Request) bool {
+	hvalue := req.Header.Get(m.header)
+	return hvalue != "" && m.regex.MatchString(hvalue)
+}
+
+func (m *valueRegexMatcher) MatchResponse(res *http.Response) bool {
+	return m.MatchRequest(res.Request)
 }
 
 func headerValueRegexFilterFromJSON(b []byte) (*parse.Result, error) {
@@ -70,59 +83,20 @@ func headerValueRegexFilterFromJSON(b []byte) (*parse.Result, error) {
 		return nil, err
 	}
 
-	reqmod := r.RequestModifier()
-	filter.SetRequestModifier(reqmod)
+	filter.RequestWhenTrue(r.RequestModifier())
+	filter.ResponseWhenTrue(r.ResponseModifier())
 
-	resmod := r.ResponseModifier()
-	filter.SetResponseModifier(resmod)
+	if len(msg.ElseModifier) > 0 {
+		em, err := parse.FromJSON(msg.ElseModifier)
+		if err != nil {
+			return nil, err
+		}
+
+		if em != nil {
+			filter.RequestWhenFalse(em.RequestModifier())
+			filter.ResponseWhenFalse(em.ResponseModifier())
+		}
+	}
 
 	return parse.NewResult(filter, msg.Scope)
-}
-
-// ModifyRequest runs reqmod iff the value of header matches regex.
-func (f *ValueRegexFilter) ModifyRequest(req *http.Request) error {
-	hvalue := req.Header.Get(f.header)
-	if hvalue == "" {
-		return nil
-	}
-
-	if f.regex.MatchString(hvalue) {
-		return f.reqmod.ModifyRequest(req)
-	}
-
-	return nil
-}
-
-// ModifyResponse runs resmod iff the value of request header matches regex.
-func (f *ValueRegexFilter) ModifyResponse(res *http.Response) error {
-	hvalue := res.Request.Header.Get(f.header)
-	if hvalue == "" {
-		return nil
-	}
-
-	if f.regex.MatchString(hvalue) {
-		return f.resmod.ModifyResponse(res)
-	}
-
-	return nil
-}
-
-// SetRequestModifier sets the request modifier of HeaderValueRegexFilter.
-func (f *ValueRegexFilter) SetRequestModifier(reqmod martian.RequestModifier) {
-	if reqmod == nil {
-		f.reqmod = noop
-		return
-	}
-
-	f.reqmod = reqmod
-}
-
-// SetResponseModifier sets the response modifier of HeaderValueRegexFilter.
-func (f *ValueRegexFilter) SetResponseModifier(resmod martian.ResponseModifier) {
-	if resmod == nil {
-		f.resmod = noop
-		return
-	}
-
-	f.resmod = resmod
 }
